@@ -57,7 +57,7 @@ def r1_only_under_flag(ctx):
         g = ctx.cfg(func)
         dom = ctx.dom(g, g.entry)
         for n in g.nodes_containing(c):
-            facts = graph.guard_facts(dom, n)
+            facts = graph.guard_facts_at(dom, n, c)
             ok = any(canon_fact(fa) == ('key', 'ELLIPSIS', True) for fa in facts)
             rep.ob('C06.R1', ctx.loc(func, c), ctx.src(c), ok,
                    "edge-dominated by runstate['ELLIPSIS'] true" if ok else "reachable with ELLIPSIS off (guards: %s)" % fmt_facts(facts), anchor=CM)
